@@ -1,4 +1,5 @@
 import LopdfModel.Lemmas.Crypt
+import LopdfModel.Lemmas.CryptStrip
 /-
   C05 — Encrypt then decrypt restores every string and stream.
 
@@ -8,14 +9,15 @@ import LopdfModel.Lemmas.Crypt
 
   What is proved here about the model of the code (Model/Crypt.lean), for ALL inputs:
     * rc4_involutive, pkcs5_unpad_pad, cbc_dec_enc, filter_rt (every filter, key, IV)
-    * walker_rt: decrypt_object ∘ encrypt_object = normLen on EVERY object (arbitrary nesting),
+    * walker_rt: decrypt_object ∘ encrypt_object = normLen on EVERY object (arbitrary nesting, strings
+      of stream dictionaries included),
       every filter assignment, every IV supply — where `normLen` only rewrites `Length` of
       processed streams (Stream::set_content), so contents and strings are restored exactly;
       walker_rt_exact under the guard "every stream's Length is its content length".
     * aes_ct_ne_pt: AES ciphertext never equals the plaintext (length).
-  The full statement is FALSE of the code in two places (counter-witnesses in this file / the
-  harness): owner password with R2–R4 (Algorithm 7 missing in decode) and non-PDFDoc passwords
-  for R≤4.  (R5/R6 passwords longer than 127 bytes were a third one; repaired in /repo 422f3cc.)
+  The full statement is FALSE of the code in one remaining place (counter-witness in this file /
+  the harness): non-PDFDoc passwords for R≤4.  Repaired in /repo and now positive theorems: the owner
+  password with R2–R4 (doc_rt_owner_r234) and R5/R6 passwords longer than 127 bytes (doc_rt_over127).
 -/
 set_option linter.unusedSectionVars false
 namespace Lopdf.Crypt
@@ -30,29 +32,77 @@ example : rc4 [75, 101, 121] (rc4 [75, 101, 121] [1, 2, 3]) = [1, 2, 3] := rc4_i
 section walker
 variable (P : Prims) (st : EncState) (id : ObjId) (ivs : IVs)
 
-/-- encryption never turns anything into or out of a name (names are not encrypted) -/
-theorem encObj_asName (o : Obj) (k : Nat) (r : Obj × Nat) (h : encObj P st id ivs o k = .ok r) :
-    r.1.asName = o.asName := by
-  cases o <;> simp only [encObj] at h
-  case arr items => split at h <;> first | (injection h with h; subst h; simp [Obj.asName, setContent]; done) | cases h
-  case dict es =>
+/- Both walkers preserve `strip`: they change nothing but string bytes, stream data and the
+`Length` of processed streams — in particular no name, so every decision (XRef / Metadata
+exemption, Crypt override, default filter) is taken identically when decrypting. -/
+mutual
+theorem encObj_strip (o : Obj) (k : Nat) (r : Obj × Nat) (h : encObj P st id ivs o k = .ok r) :
+    strip r.1 = strip o := by
+  match o with
+  | .arr items =>
+    simp only [encObj] at h
     split at h
-    · injection h with h; subst h; simp [Obj.asName]
-    · split at h <;> first | (injection h with h; subst h; simp [Obj.asName, setContent]; done) | cases h
-  case str s f => split at h <;> first | (injection h with h; subst h; simp [Obj.asName, setContent]; done) | cases h
-  case stream d c =>
+    · rename_i items' k' he
+      injection h with h; subst h
+      simp [strip, encList_strip items k _ he]
+    · cases h
+  | .dict es =>
+    simp only [encObj] at h
     split at h
-    · injection h with h; subst h; simp [Obj.asName]
-    · split at h <;> first | (injection h with h; subst h; simp [Obj.asName, setContent]; done) | cases h
-  all_goals (injection h with h; subst h; simp [Obj.asName, setContent])
-
-theorem encDict_get (es : List (Bytes × Obj)) (k : Nat) (r : List (Bytes × Obj) × Nat)
-    (h : encDict P st id ivs es k = .ok r) (q : Bytes) :
-    (Dict.get r.1 q).bind Obj.asName = (Dict.get es q).bind Obj.asName ∧ Dict.has r.1 q = Dict.has es q := by
-  induction es generalizing k r with
-  | nil => simp [encDict] at h; subst h; simp
-  | cons e rest ih =>
-    obtain ⟨key, o⟩ := e
+    · injection h with h; subst h; rfl
+    · split at h
+      · rename_i es' k' he
+        injection h with h; subst h
+        simp [strip, encDict_strip es k _ he]
+      · cases h
+  | .str s f =>
+    simp only [encObj] at h
+    split at h
+    · injection h with h; subst h; simp [strip]
+    · cases h
+  | .stream d c =>
+    simp only [encObj] at h
+    split at h
+    · injection h with h; subst h; rfl
+    · split at h
+      · cases h
+      · rename_i d' k1 hd
+        have hs := encDict_strip d k _ hd
+        simp at hs
+        split at h
+        · injection h with h; subst h; simp [strip, hs]
+        · split at h
+          · injection h with h; subst h
+            simp [setContent, strip, stripDict_set, set_set, hs]
+          · cases h
+  | .null => simp [encObj] at h; subst h; rfl
+  | .bool _ => simp [encObj] at h; subst h; rfl
+  | .int _ => simp [encObj] at h; subst h; rfl
+  | .real _ => simp [encObj] at h; subst h; rfl
+  | .name _ => simp [encObj] at h; subst h; rfl
+  | .ref _ _ => simp [encObj] at h; subst h; rfl
+theorem encList_strip (os : List Obj) (k : Nat) (r : List Obj × Nat) (h : encList P st id ivs os k = .ok r) :
+    stripList r.1 = stripList os := by
+  match os with
+  | [] => simp [encList] at h; subst h; rfl
+  | o :: rest =>
+    simp only [encList] at h
+    split at h
+    · cases h
+    · rename_i o' k' ho
+      split at h
+      · cases h
+      · rename_i rest' k'' hr
+        injection h with h; subst h
+        have h1 := encObj_strip o k _ ho
+        have h2 := encList_strip rest k' _ hr
+        simp at h1 h2
+        simp [stripList, h1, h2]
+theorem encDict_strip (es : List (Bytes × Obj)) (k : Nat) (r : List (Bytes × Obj) × Nat)
+    (h : encDict P st id ivs es k = .ok r) : stripDict r.1 = stripDict es := by
+  match es with
+  | [] => simp [encDict] at h; subst h; rfl
+  | (key, o) :: rest =>
     simp only [encDict] at h
     split at h
     · cases h
@@ -61,15 +111,110 @@ theorem encDict_get (es : List (Bytes × Obj)) (k : Nat) (r : List (Bytes × Obj
       · cases h
       · rename_i rest' k'' hr
         injection h with h; subst h
-        have := ih k' _ hr
-        have hn := encObj_asName P st id ivs o k _ ho
-        by_cases hq : key = q
-        · simp [Dict.get, Dict.has, hq]; simpa using hn
-        · simp only [Dict.get, Dict.has, hq, ↓reduceIte]; simpa [Dict.has] using this
+        have h1 := encObj_strip o k _ ho
+        have h2 := encDict_strip rest k' _ hr
+        simp at h1 h2
+        simp [stripDict, h1, h2]
+end
 
+mutual
+theorem decObj_strip (o o' : Obj) (h : decObj P st id o = .ok o') : strip o' = strip o := by
+  match o with
+  | .arr items =>
+    simp only [decObj] at h
+    split at h
+    · rename_i items' he
+      injection h with h; subst h
+      simp [strip, decList_strip items _ he]
+    · cases h
+  | .dict es =>
+    simp only [decObj] at h
+    split at h
+    · injection h with h; subst h; rfl
+    · split at h
+      · rename_i es' he
+        injection h with h; subst h
+        simp [strip, decDict_strip es _ he]
+      · cases h
+  | .str s f =>
+    simp only [decObj] at h
+    split at h
+    · injection h with h; subst h; simp [strip]
+    · cases h
+  | .stream d c =>
+    simp only [decObj] at h
+    split at h
+    · injection h with h; subst h; rfl
+    · split at h
+      · cases h
+      · rename_i d' hd
+        have hs := decDict_strip d _ hd
+        split at h
+        · injection h with h; subst h; simp [strip, hs]
+        · split at h
+          · injection h with h; subst h
+            simp [setContent, strip, stripDict_set, set_set, hs]
+          · cases h
+  | .null => simp [decObj] at h; subst h; rfl
+  | .bool _ => simp [decObj] at h; subst h; rfl
+  | .int _ => simp [decObj] at h; subst h; rfl
+  | .real _ => simp [decObj] at h; subst h; rfl
+  | .name _ => simp [decObj] at h; subst h; rfl
+  | .ref _ _ => simp [decObj] at h; subst h; rfl
+theorem decList_strip (os os' : List Obj) (h : decList P st id os = .ok os') : stripList os' = stripList os := by
+  match os with
+  | [] => simp [decList] at h; subst h; rfl
+  | o :: rest =>
+    simp only [decList] at h
+    split at h
+    · cases h
+    · rename_i o1 ho
+      split at h
+      · cases h
+      · rename_i rest1 hr
+        injection h with h; subst h
+        simp [stripList, decObj_strip o _ ho, decList_strip rest _ hr]
+theorem decDict_strip (es es' : List (Bytes × Obj)) (h : decDict P st id es = .ok es') : stripDict es' = stripDict es := by
+  match es with
+  | [] => simp [decDict] at h; subst h; rfl
+  | (key, o) :: rest =>
+    simp only [decDict] at h
+    split at h
+    · cases h
+    · rename_i o1 ho
+      split at h
+      · cases h
+      · rename_i rest1 hr
+        injection h with h; subst h
+        simp [stripDict, decObj_strip o _ ho, decDict_strip rest _ hr]
+end
+
+/-- encryption never changes the Type / Linearized classification of a dictionary (names are not
+encrypted), so the Metadata exemption is decided identically when decrypting -/
 theorem encDict_getType (es : List (Bytes × Obj)) (k : Nat) (r : List (Bytes × Obj) × Nat)
     (h : encDict P st id ivs es k = .ok r) : Dict.getType r.1 = Dict.getType es := by
-  simp [Dict.getType, (encDict_get P st id ivs es k r h TYPE).1, (encDict_get P st id ivs es k r h LINEARIZED).2]
+  rw [← getType_strip, encDict_strip P st id ivs es k r h, getType_strip]
+
+/-- decrypting a dictionary in which an integer entry was set afterwards (`Length`, by
+`Stream::set_content`) = setting it after decrypting -/
+theorem decDict_set_int (es dd : List (Bytes × Obj)) (key : Bytes) (n : Int)
+    (h : decDict P st id es = .ok dd) :
+    decDict P st id (Dict.set es key (.int n)) = .ok (Dict.set dd key (.int n)) := by
+  induction es generalizing dd with
+  | nil => simp [decDict] at h; subst h; simp [Dict.set, decDict, decObj]
+  | cons e rest ih =>
+    obtain ⟨a, v⟩ := e
+    simp only [decDict] at h
+    split at h
+    · cases h
+    · rename_i v1 hv
+      split at h
+      · cases h
+      · rename_i rest1 hr
+        injection h with h; subst h
+        by_cases ha : a = key
+        · subst ha; simp [Dict.set, decDict, decObj, hr]
+        · simp [Dict.set, ha, decDict, hv, ih rest1 hr]
 
 variable (hk : ∀ key, BlockOK P key) (hiv : ∀ n, (ivs n).length = 16)
 include hk hiv
@@ -92,8 +237,9 @@ theorem walker_rt_obj (o : Obj) (k : Nat) (r : Obj × Nat) (h : encObj P st id i
     · split at h
       · rename_i hm _ es' k' he
         injection h with h; subst h
-        have hm' : metadataExempt st (.dict es') = metadataExempt st (.dict es) := by
-          simp [metadataExempt, encDict_getType P st id ivs es k _ he]
+        have hs := encDict_strip P st id ivs es k _ he
+        have hm' : metadataExempt st (.dict es') = metadataExempt st (.dict es) :=
+          (decisions_of_strip st es es' hs [] []).2.2.2
         simp [decObj, normLen, hm', hm, walker_rt_dict es k _ he]
       · cases h
   | .str s f =>
@@ -106,14 +252,34 @@ theorem walker_rt_obj (o : Obj) (k : Nat) (r : Obj × Nat) (h : encObj P st id i
   | .stream d c =>
     simp only [encObj] at h
     split at h
-    · injection h with h; subst h; rename_i hm; simp [decObj, normLen, hm]
-    · rename_i hm
+    · injection h with h; subst h; rename_i hx; simp [decObj, normLen, hx]
+    · rename_i hx
       split at h
-      · rename_i c' he
-        injection h with h; subst h
-        simp only [setContent, decObj, exempt_setLength st d _ c c', hm, streamCF_setLength]
-        simp [filter_rt P _ _ _ _ _ (hk _) (hiv k) he, normLen, hm, setContent, set_set]
       · cases h
+      · rename_i d' k1 hd
+        have hs : stripDict d' = stripDict d := by
+          have := encDict_strip P st id ivs d k _ hd; simpa using this
+        have hdec : decDict P st id d' = .ok (normLenDict st d) := by
+          have := walker_rt_dict d k _ hd; simpa using this
+        have hs2 : stripDict (normLenDict st d) = stripDict d' := decDict_strip P st id d' _ hdec
+        obtain ⟨hcf, hxr, hme, _⟩ := decisions_of_strip st d d' hs c c
+        obtain ⟨hcf2, hxr2, hme2, _⟩ := decisions_of_strip st d' (normLenDict st d) hs2 c c
+        split at h
+        · -- exempt Metadata stream: dictionary strings processed, data untouched
+          rename_i hm
+          injection h with h; subst h
+          simp only [decObj, hxr, hx, hdec, hme2, hm, normLen, hme ▸ hm]
+          simp
+        · rename_i hm
+          split at h
+          · rename_i c' he
+            injection h with h; subst h
+            have hdec' := decDict_set_int P st id d' _ K_LENGTH (c'.length : Int) hdec
+            simp only [setContent, decObj, isXref_setLength d' _ c c', hxr, hx]
+            simp only [hdec', metadataExempt_setLength st (normLenDict st d) _ c c', hme2, hm,
+              streamCF_setLength, hcf2]
+            simp [filter_rt P _ _ _ _ _ (hk _) (hiv k1) he, normLen, hx, hme ▸ hm, setContent, set_set]
+          · cases h
   | .null => simp [encObj] at h; subst h; simp [decObj, normLen]
   | .bool _ => simp [encObj] at h; subst h; simp [decObj, normLen]
   | .int _ => simp [encObj] at h; subst h; simp [decObj, normLen]
@@ -172,9 +338,9 @@ mutual
 def LengthOK : Obj → Bool
   | .arr items => LengthOKList items
   | .dict es => LengthOKDict es
-  | .stream d c => match Dict.get d K_LENGTH with
+  | .stream d c => (match Dict.get d K_LENGTH with
     | some (.int i) => i == (c.length : Int)
-    | _ => false
+    | _ => false) && LengthOKDict d
   | _ => true
 def LengthOKList : List Obj → Bool
   | [] => true
@@ -190,12 +356,15 @@ theorem normLen_id (st : EncState) (o : Obj) (h : LengthOK o = true) : normLen s
   | .arr items => simp only [LengthOK] at h; simp [normLen, normLenList_id st items h]
   | .dict es => simp only [LengthOK] at h; simp [normLen, normLenDict_id st es h]
   | .stream d c =>
-    simp only [LengthOK] at h
-    split at h
+    simp only [LengthOK, Bool.and_eq_true] at h
+    obtain ⟨hl, hd⟩ := h
+    have hdd := normLenDict_id st d hd
+    split at hl
     · rename_i i hg
-      simp at h; subst h
-      simp [normLen, setContent, set_of_get d K_LENGTH _ hg]
-    · cases h
+      simp at hl; subst hl
+      by_cases hx : isXrefStream (.stream d c) <;> by_cases hm : metadataExempt st (.stream d c) <;>
+        simp [normLen, hx, hm, hdd, setContent, set_of_get d K_LENGTH _ hg]
+    · cases hl
   | .null | .bool _ | .int _ | .real _ | .name _ | .ref _ _ | .str _ _ => simp [normLen]
 theorem normLenList_id (st : EncState) (os : List Obj) (h : LengthOKList os = true) : normLenList st os = os := by
   match os with
@@ -224,7 +393,7 @@ theorem walker_rt_exact_needs_guard :
               fileKey := [], stmF := [], strF := [], ownerValue := [], ownerEncrypted := [], userValue := [],
               userEncrypted := [], permissions := 0, permsEncrypted := [] } (.stream [] [1])
       = .stream [(K_LENGTH, .int 1)] [1] := by
-  simp [normLen, isXrefStream, metadataExempt, hasType, Dict.get, setContent, Dict.set]
+  simp [normLen, normLenDict, isXrefStream, metadataExempt, hasType, Dict.get, setContent, Dict.set]
 
 /-- AES output never equals its plaintext: it is at least 17 bytes longer. -/
 theorem aes_ct_ne_pt (P : Prims) (kl : Nat) (key iv pt ct : Bytes) (hk : BlockOK P key)
@@ -247,9 +416,9 @@ theorem cbc_dec_enc' (E D : Bytes → Bytes) (hE : ∀ b, (E b).length = 16)
 (skipping an id that is not among them — the Encrypt dictionary added afterwards) restores every
 object up to `normLen`: for every object map, every state, every IV supply. -/
 theorem objects_rt (P : Prims) (st : EncState) (ivs : IVs)
-    (hk : ∀ key, BlockOK P key) (hiv : ∀ n, (ivs n).length = 16) (skip : ObjId)
+    (hk : ∀ key, BlockOK P key) (hiv : ∀ n, (ivs n).length = 16) (skip : Option ObjId)
     (os : Objects) (k : Nat) (r : Objects × Nat) (h : encObjects P st ivs os k = .ok r)
-    (hs : ∀ e ∈ os, e.1 ≠ skip) :
+    (hs : ∀ e ∈ os, some e.1 ≠ skip) :
     decObjects P st skip r.1 = .ok (os.map fun e => (e.1, normLen st e.2)) := by
   induction os generalizing k r with
   | nil => simp [encObjects] at h; subst h; simp [decObjects]
@@ -263,7 +432,7 @@ theorem objects_rt (P : Prims) (st : EncState) (ivs : IVs)
       · cases h
       · rename_i rest' k'' hr
         injection h with h; subst h
-        have hid : id ≠ skip := hs (id, o) (by simp)
+        have hid : some id ≠ skip := hs (id, o) (by simp)
         have hrest := ih k' _ hr (fun e he => hs e (by simp [he]))
         have hw := walker_rt P st id ivs hk hiv o k _ ho
         simp only [decObjects, hid, ↓reduceIte]
@@ -400,10 +569,11 @@ theorem authUserR4_padPw (P : Prims) (a : Alg) (fileId pw : Bytes) :
   simp [Alg.authUserR4, Alg.computeU2, Alg.computeU34, fileKeyR4_padPw]
 
 /-- Algorithm 7 as coded recovers the (padded) user password from the `O` of Algorithm 3 as coded. -/
-theorem recoverUser_computeO (P : Prims) (a : Alg) (ownerPw userPw o : Bytes)
-    (h : a.computeO P ownerPw userPw = .ok o) :
-    ({ a with ownerValue := o } : Alg).recoverUser P ownerPw = padPw userPw := by
+theorem recoverUser_computeO (P : Prims) (a : Alg) (ownerPw0 userPw o : Bytes)
+    (h : a.computeO P ownerPw0 userPw = .ok o) :
+    ({ a with ownerValue := o } : Alg).recoverUser P (effOwner ownerPw0 userPw) = padPw userPw := by
   unfold Alg.computeO at h
+  generalize effOwner ownerPw0 userPw = ownerPw at h ⊢
   split at h
   · cases h
   · injection h with h
@@ -424,7 +594,7 @@ theorem recoverUser_computeO (P : Prims) (a : Alg) (ownerPw userPw o : Bytes)
 theorem authOwnerR4_of_user (P : Prims) (a : Alg) (fileId ownerPw userPw : Bytes)
     (hO : a.computeO P ownerPw userPw = .ok a.ownerValue)
     (hU : a.authUserR4 P fileId userPw = .ok ()) :
-    a.authOwnerR4 P fileId ownerPw = .ok () := by
+    a.authOwnerR4 P fileId (effOwner ownerPw userPw) = .ok () := by
   have hrec := recoverUser_computeO P a ownerPw userPw a.ownerValue hO
   have ha : ({ a with ownerValue := a.ownerValue } : Alg) = a := rfl
   rw [ha] at hrec
@@ -449,19 +619,74 @@ theorem decode_key_r4 (P : Prims) (enc : Dict) (fileId pw : Bytes) (st : EncStat
       injection h with h
       exact ⟨a, ha, by rw [hk, ← h]⟩
 
-/-- … and for two different passwords Algorithm 2 gives different keys unless MD5 collides: in the
-`toy` instance (which satisfies every hypothesis of the positive theorems) the key derived from the
-owner password differs from the file key. `doc_rt_owner` is FALSE for R ≤ 4. -/
-def wAlg : Alg := { encryptMetadata := true, length := none, version := 1, revision := 2,
-                    ownerValue := List.replicate 32 1, ownerEncrypted := [], userValue := [], userEncrypted := [],
-                    permissions := PERM_ALL, permsEncrypted := [] }
-instance : DecidableEq (Except Err Bytes) := fun a b =>
-  match a, b with
-  | .ok x, .ok y => if h : x = y then isTrue (by rw [h]) else isFalse (by intro e; injection e; contradiction)
-  | .error x, .error y => if h : x = y then isTrue (by rw [h]) else isFalse (by intro e; injection e; contradiction)
-  | .ok _, .error _ => isFalse (by intro e; cases e)
-  | .error _, .ok _ => isFalse (by intro e; cases e)
-theorem doc_rt_owner_r234_false : wAlg.fileKey toy [7] OWNER ≠ wAlg.fileKey toy [7] USER := by decide +kernel
+/-! ### (F-C05-a repaired) R2–R4: the owner password opens the document exactly like the user password -/
+
+theorem okB_ok {ε α} (x : Except ε α) (a : α) (h : x = .ok a) : okB x = true := by subst h; rfl
+
+/-- `compute_file_encryption_key` with the OWNER password yields the key Algorithm 2 derives from
+the USER password — for all primitives, every owner / user password pair (an empty owner password
+standing for "none"), revisions 2–4. -/
+theorem owner_key_r234 (P : Prims) (a : Alg) (fileId ownerPw userPw : Bytes)
+    (hr : 2 ≤ a.revision ∧ a.revision ≤ 4)
+    (hO : a.computeO P ownerPw userPw = .ok a.ownerValue)
+    (hU : a.authUserR4 P fileId userPw = .ok ()) :
+    a.fileKey P fileId (effOwner ownerPw userPw) = a.fileKeyR4 P fileId userPw := by
+  have hrec := recoverUser_computeO P a ownerPw userPw a.ownerValue hO
+  have ha : ({ a with ownerValue := a.ownerValue } : Alg) = a := rfl
+  rw [ha] at hrec
+  have hn : keyBytes a.revision a.length ≤ 16 := by
+    apply Nat.le_of_not_gt; intro hn; simp [Alg.computeO, hn] at hO
+  unfold Alg.fileKey
+  have h1 : (decide (2 ≤ a.revision) && decide (a.revision ≤ 4)) = true := by simp [hr.1, hr.2]
+  rw [hrec, authUserR4_padPw, fileKeyR4_padPw]
+  simp [h1, hn, okB_ok _ _ hU]
+
+/-- … and with the user password too, unless the user password itself passes the owner test with a
+different recovered password (a hash / RC4 coincidence). -/
+theorem user_key_r234 (P : Prims) (a : Alg) (fileId userPw : Bytes)
+    (hr : 2 ≤ a.revision ∧ a.revision ≤ 4)
+    (hno : okB (a.authUserR4 P fileId (a.recoverUser P userPw)) = false) :
+    a.fileKey P fileId userPw = a.fileKeyR4 P fileId userPw := by
+  unfold Alg.fileKey
+  simp [hr.1, hr.2, hno]
+
+/-- `EncryptionState::decode` gives the same state for both passwords … -/
+theorem decodeState_owner_eq_user (P : Prims) (enc : Dict) (a : Alg) (fileId ownerPw userPw : Bytes)
+    (ha : algOfDict enc = .ok a) (hr : 2 ≤ a.revision ∧ a.revision ≤ 4)
+    (hO : a.computeO P ownerPw userPw = .ok a.ownerValue)
+    (hU : a.authUserR4 P fileId userPw = .ok ())
+    (hno : okB (a.authUserR4 P fileId (a.recoverUser P userPw)) = false) :
+    decodeState P enc fileId (effOwner ownerPw userPw) = decodeState P enc fileId userPw := by
+  unfold decodeState
+  simp only [ha]
+  rw [owner_key_r234 P a fileId ownerPw userPw hr hO hU, user_key_r234 P a fileId userPw hr hno]
+
+theorem authAny_ok_of_user (P : Prims) (a : Alg) (fileId pw : Bytes) (h : a.authUser P fileId pw = .ok ()) :
+    a.authAny P fileId pw = .ok () := by
+  unfold Alg.authAny
+  split
+  · rfl
+  · exact h
+
+/-- `doc_rt_owner` for R2–R4: on EVERY encrypted document whose O and U entries are those of
+Algorithms 3 and 4/5 for an (owner, user) password pair, `decrypt_raw` with the owner password
+returns exactly what it returns with the user password — every object, the trailer, or the same
+error.  (With `objects_rt` and the correspondence of the user-password path this is the owner half
+of the property; before /repo cc32d41 the result was garbage.) -/
+theorem doc_rt_owner_r234 (P : Prims) (d : Doc) (enc : Dict) (a : Alg) (ownerPw userPw : Bytes)
+    (hd : d.getEncrypted = some enc) (ha : algOfDict enc = .ok a) (hr : 2 ≤ a.revision ∧ a.revision ≤ 4)
+    (hO : a.computeO P ownerPw userPw = .ok a.ownerValue)
+    (hU : a.authUserR4 P (d.fileId.getD []) userPw = .ok ())
+    (hno : okB (a.authUserR4 P (d.fileId.getD []) (a.recoverUser P userPw)) = false) :
+    d.decryptRaw P (effOwner ownerPw userPw) = d.decryptRaw P userPw := by
+  have hrev : (decide (2 ≤ a.revision) && decide (a.revision ≤ 4)) = true := by simp [hr.1, hr.2]
+  have hOwn : a.authAny P (d.fileId.getD []) (effOwner ownerPw userPw) = .ok () := by
+    unfold Alg.authAny Alg.authOwner
+    simp only [hrev, ↓reduceIte, authOwnerR4_of_user P a _ ownerPw userPw hO hU]
+  have hUsr : a.authAny P (d.fileId.getD []) userPw = .ok () := by
+    apply authAny_ok_of_user; unfold Alg.authUser; simp only [hrev, ↓reduceIte, hU]
+  unfold Doc.decryptRaw
+  simp only [hd, ha, hOwn, hUsr, decodeState_owner_eq_user P enc a _ ownerPw userPw ha hr hO hU hno]
 
 /-- with R6 the owner password does restore the text. -/
 theorem witness_owner_r6_ok : wText (wCfg .v5 OWNER USER) OWNER = some SECRET := by decide +kernel
